@@ -175,7 +175,9 @@ def apply_action(real, act, data, how=0):
         cur.update()
         sub = Tree(grid)
     elif name == "sub_outliers":
-        for dp in cur.outliers:
+        # TreeADT.tla's action hands ALL outliers over; iterate over a snapshot so that the harness does not depend on
+        # whether Tree.outliers returns a copy (benign change B9)
+        for dp in list(cur.outliers):
             cur.remove_data_point_from_outliers(dp)
             sub.add_data_point_to_outliers(dp)
     elif name == "sub_rebuild_start":
@@ -184,7 +186,7 @@ def apply_action(real, act, data, how=0):
         p = node(act["parent"])
         new = cur.copy()
         new.add_subtree(sub, parent=None if p == "root" else p)
-        for dp in sub.outliers:
+        for dp in list(sub.outliers):
             new.add_data_point_to_outliers(dp)
         new.update()
         cur = new
